@@ -250,6 +250,8 @@ class UnusedTranslator:
                 for group in repeated:
                     if any(atom.symbol.arguments[i] != atom.symbol.arguments[group[0]] for i in group):
                         return False
+                    if atom.symbol.arguments[group[0]] == Variable(LOC, "_"):
+                        return False  # two anonymous variables are two different variables
                     if collect_ast(atom.symbol.arguments[group[0]], "Interval"):
                         return False  # every occurrence of an interval takes its own value
         return True
